@@ -838,6 +838,11 @@ def alias(tier, seed, ci, nc, count=6000):
     for g in gens:
         for r in g:
             yield ('rt:alias', r)
+            # the one-signature forms: nothing is combined, yet the result is a new signature with maps of its own
+            if r[0] == 'merge' and len(r[1]) >= 1 and hash(str(r)) % 5 == 0:
+                yield ('rt:alias', ('merge', tuple(r[1][:1])))
+            if r[0] == 'embed' and len(r[3]) >= 1 and hash(str(r)) % 5 == 0:
+                yield ('rt:alias', ('embed', r[1], r[2], tuple(r[3][:1])))
 
 
 STREAMS['alias'] = alias
@@ -869,6 +874,13 @@ def visitor_corpus(tier, seed, ci, nc, star_only=False, limit=None):
 
 
 ADVERSARIAL_SOURCES = [
+    # the taint sits in the forwarding call's own argument list: explicit arguments are resolved before the stars
+    "def f(*args, **kwargs):\n    return g(h(kwargs), *args, **kwargs)\n",
+    "def f(*args, **kwargs):\n    return g(*args, z=h(kwargs), **kwargs)\n",
+    "def f(*args, **kwargs):\n    return g(*args, z=kwargs.pop('w', None), **kwargs)\n",
+    "def f(*args, **kwargs):\n    return g(kwargs.setdefault('a', 1), h(args), *args, **kwargs)\n",
+    "def f(*args, **kwargs):\n    return g(*args, **kwargs)(h(kwargs))\n",
+    "def f(*args, **kwargs):\n    return g(lambda: h(kwargs), *args, **kwargs)\n",
     # nesting through functions / lambdas that bind no name of their own (their namespace is empty)
     "def f(*args, **kwargs):\n    def l1():\n        def l2():\n            return g(*args, **kwargs)\n        return l2()\n    return l1()\n",
     "def f(*args, **kwargs):\n    return (lambda: (lambda: g(*args, **kwargs))())()\n",
@@ -977,7 +989,7 @@ STREAMS['progexec'] = progexec
 
 
 def probes_c05(tier, seed, ci, nc):
-    return _slice(iter([('rt:nested_taint',)]), ci, nc)
+    return _slice(iter([('rt:nested_taint',), ('rt:source_changed',)]), ci, nc)
 
 
 STREAMS['probes_c05'] = probes_c05
@@ -1042,6 +1054,8 @@ def wrap(tier, seed, ci, nc, count=600):
         if any(p[1] == 'po' for p in fps) and placement == 'method':
             placement = 'function'
         yield ('rt:wrap', kind, tuple(own_list), fps, placement)
+    if ci == 0:
+        yield ('rt:wrap_identity',)
     for _ in range(count // nc // 2):
         k = rng.choice([1, 2, 2, 3])
         fl = tuple(rng.choice([s for s in U('ab', 2)]) for _ in range(k))
@@ -1079,6 +1093,7 @@ STREAMS['annot'] = annot
 def probes_c11(tier, seed, ci, nc):
     yield ('rt:class_annotations',)
     yield ('rt:annotate_discovery',)
+    yield ('rt:none_annotation',)
 
 
 STREAMS['probes_c11'] = probes_c11
@@ -1159,7 +1174,7 @@ def partialfwd(tier, seed, ci, nc, count=400):
     rng = _rng(seed, 'partialfwd', ci)
     univ = [s for s in U('xy', 2) if not any(p[0] in ('a', 'cb', 'target', 'args', 'kwargs') and p[1] not in ('vp', 'vk') for p in s)]
     for k in range(count // nc):
-        tmpl = ('posparam', 'kwdefault', 'kwbound', 'globnone', 'globkw', 'globpos', 'kwleading')[k % 7]
+        tmpl = ('posparam', 'kwdefault', 'kwbound', 'globnone', 'globkw', 'globpos', 'kwleading', 'nestedpartial')[k % 8]
         yield ('rt:partialfwd', tmpl, rng.choice(univ), rng.choice(univ), rng.choice([0, 0, 1]))
 
 
